@@ -228,6 +228,9 @@ def _range_names(ranges):
         return {ranges}
     if isinstance(ranges, Variable):
         return {ranges.name}
+    if not isinstance(ranges, (list, tuple, set, frozenset)):
+        # a generator / iterator has been consumed by the call itself and cannot be read again
+        raise TypeError("one-shot iterable")
     return {r if isinstance(r, str) else r.name for r in ranges}
 
 
